@@ -12,6 +12,8 @@ immediate + delayed, and dxdt[s] = sum_j prop[S_indices[s][j]] * S_values[s][j] 
 propensities were computed at (x, t).
 R3.5 initialisation check: check_parameters precedes `initialized = True`, raises when a value
 is NaN, and new parameters start as NaN.
+R3.6 rebuilt after change: every Model method that changes the reaction list, the species or the parameters clears `initialized`
+on each path that writes (C08 R8.1), and an interface refuses / re-initialises a model whose flag is clear (C08 R8.2).
 """
 import ast
 
